@@ -393,6 +393,7 @@ class Evaluator:
                  arrays: set[str] | None = None,
                  int_transparent: bool = False) -> None:
         self.int_transparent = int_transparent
+        self.tolerant_loops = False
         self.const_of = const_of
         self.call_hook = call_hook
         self.loop_hook = loop_hook
@@ -463,6 +464,46 @@ class Evaluator:
             return tuple(self.expr(env, e) for e in n.elts)
         raise Unsupported(f"expression {type(n).__name__}", n)
 
+    def _arr(self, env: Env, base: ast.expr) -> str:
+        """The canonical name of an array expression."""
+        if isinstance(base, ast.Name):
+            bound = env.vars.get(base.id)
+            if isinstance(bound, tuple) and bound and bound[0] == "array":
+                return bound[1]
+            if isinstance(bound, Poly):
+                at = bound.as_atom()
+                if at is not None and at[0] == "var":
+                    return at[1]
+                if at is not None and at[0] == "cell":
+                    return show_atom(at)
+                raise Unsupported(f"{base.id} is not an array", base)
+            if bound is None:
+                return base.id
+            raise Unsupported(f"{base.id} is not an array", base)
+        if isinstance(base, ast.Attribute):
+            return ast.unparse(base)
+        raise Unsupported("array expression", base)
+
+    def _reduction_call(self, env: Env, kind: str, sub: ast.Subscript) \
+            -> Poly:
+        """`a[:, c].max()` / `a[lo:hi].min()` as reduction atoms."""
+        arr = self._arr(env, sub.value)
+        sl = sub.slice
+        if isinstance(sl, ast.Tuple) and len(sl.elts) == 2 and isinstance(
+                sl.elts[0], ast.Slice) and sl.elts[0].lower is None and \
+                sl.elts[0].upper is None and sl.elts[0].step is None:
+            col = self.num(env, sl.elts[1])
+            return Poly.atom(("colred", kind, arr, col))
+        if isinstance(sl, ast.Slice) and sl.step is None:
+            lo = self.num(env, sl.lower) if sl.lower is not None \
+                else Poly.const(0)
+            hi = self.num(env, sl.upper) if sl.upper is not None \
+                else Poly.atom(("app", "len", (Poly.var(arr),)))
+            summ = env.stores.get((arr, ("summary",)))
+            content = summ if summ is not None else Poly.var(arr)
+            return Poly.atom(("slicered", kind, content, lo, hi))
+        raise Unsupported("reduction over this slice", sub)
+
     def num(self, env: Env, n: ast.expr) -> Poly:
         v = self.expr(env, n)
         if not isinstance(v, Poly):
@@ -530,9 +571,12 @@ class Evaluator:
                 raise Unsupported(f"subscript of {name}", n)
             elif isinstance(bound, Poly):
                 at = bound.as_atom()
-                if at is None or at[0] != "var":
+                if at is not None and at[0] == "cell":
+                    name = show_atom(at)      # element of a list of lists
+                elif at is None or at[0] != "var":
                     raise Unsupported(f"subscript of scalar {name}", n)
-                name = at[1]
+                else:
+                    name = at[1]
         elif isinstance(base, ast.Attribute):
             name = ast.unparse(base)
         else:
@@ -541,8 +585,16 @@ class Evaluator:
         k = (name, idx)
         if k in env.stores:
             return env.stores[k]
+        if (name, ("summary",)) in env.stores:
+            raise Unsupported(f"element load from loop-written array "
+                              f"{name}", n)
+        if (name, ("fill",)) in env.stores and not any(
+                kk[0] == name and kk[1] != ("fill",) for kk in env.stores):
+            return env.stores[(name, ("fill",))]
         # a store with a non-identical index to the same array may alias
         for (an, ai) in env.stores:
+            if ai in (("fill",), ("summary",)):
+                continue
             if an == name and len(ai) == len(idx) and not _distinct(ai, idx):
                 raise Unsupported(
                     f"load {name}{[show(i) for i in idx]} may alias an "
@@ -577,6 +629,13 @@ class Evaluator:
                 return r
         fn = n.func
         name = None
+        if isinstance(fn, ast.Attribute) and fn.attr in ("max", "min") \
+                and not n.args and isinstance(fn.value, ast.Subscript):
+            return self._reduction_call(env, fn.attr, fn.value)
+        if isinstance(fn, ast.Name) and fn.id in ("max", "min") and len(
+                n.args) == 1 and isinstance(n.args[0], ast.Subscript) \
+                and not n.keywords:
+            return self._reduction_call(env, fn.id, n.args[0])
         if isinstance(fn, ast.Name):
             name = fn.id
         elif isinstance(fn, ast.Attribute) and isinstance(
@@ -634,20 +693,16 @@ class Evaluator:
                 self.assign(env, t, v)
         elif isinstance(target, ast.Subscript):
             base = target.value
-            if isinstance(base, ast.Name):
-                name = base.id
-                bound = env.vars.get(name)
-                if isinstance(bound, tuple) and bound and \
-                        bound[0] == "array":
-                    name = bound[1]
-            elif isinstance(base, ast.Attribute):
-                name = ast.unparse(base)
+            if isinstance(base, (ast.Name, ast.Attribute)):
+                name = self._arr(env, base)
             else:
                 raise Unsupported("store base", target)
             if not isinstance(value, Poly):
                 raise Unsupported("non-numeric store", target)
             idx = self.index(env, target.slice)
             for (an, ai) in list(env.stores):
+                if ai in (("fill",), ("summary",)):
+                    continue
                 if an == name and ai != idx and not _distinct(ai, idx):
                     raise Unsupported(
                         f"store {name}{[show(i) for i in idx]} may alias an "
@@ -695,6 +750,18 @@ class Evaluator:
         if isinstance(s, ast.Expr):
             if isinstance(s.value, ast.Constant):
                 return env
+            c = s.value
+            if isinstance(c, ast.Call) and isinstance(
+                    c.func, ast.Attribute) and c.func.attr == "fill" and \
+                    len(c.args) == 1 and isinstance(
+                    c.func.value, (ast.Name, ast.Attribute)):
+                arr = self._arr(env, c.func.value)
+                v = self.num(env, c.args[0])
+                for key in list(env.stores):
+                    if key[0] == arr:
+                        del env.stores[key]
+                env.stores[(arr, ("fill",))] = v
+                return env
             if isinstance(s.value, ast.Call):
                 self.expr(env, s.value)
                 return env
@@ -715,9 +782,35 @@ class Evaluator:
             e2 = self.block(env.copy(), s.orelse)
             return self.merge(c, e1, e2)
         if isinstance(s, (ast.For, ast.While)):
-            if self.loop_hook is not None and self.loop_hook(self, env, s):
-                return env
-            raise Unsupported(f"loop at line {s.lineno} not recognised", s)
+            saved_vars, saved_stores = dict(env.vars), dict(env.stores)
+            try:
+                if self.loop_hook is not None and self.loop_hook(
+                        self, env, s):
+                    return env
+                why = "no recogniser"
+            except Unsupported as u:
+                if not self.tolerant_loops:
+                    raise
+                why = str(u)
+                env.vars, env.stores = saved_vars, saved_stores
+            if not self.tolerant_loops:
+                raise Unsupported(
+                    f"loop at line {s.lineno} not recognised", s)
+            # havoc everything the loop may assign
+            for sub in ast.walk(s):
+                if isinstance(sub, ast.Name) and isinstance(
+                        sub.ctx, ast.Store):
+                    env.vars[sub.id] = Poly.atom(
+                        ("opaque", sub.id, f"loop not summarised: {why}"))
+                if isinstance(sub, ast.Subscript) and isinstance(
+                        sub.ctx, ast.Store) and isinstance(
+                        sub.value, ast.Name):
+                    for key in list(env.stores):
+                        if key[0] == sub.value.id:
+                            del env.stores[key]
+                    env.stores[(sub.value.id, ("summary",))] = Poly.atom(
+                        ("opaque", sub.value.id, "written in a loop"))
+            return env
         if isinstance(s, ast.Raise):
             # a raising path yields no value: model as 'returned' bottom
             self._ret(env, ("raise",))
@@ -834,8 +927,15 @@ def _distinct(i1: tuple, i2: tuple) -> bool:
     """Are two index tuples provably different (constant difference != 0 in
     some position)?"""
     for a, b in zip(i1, i2):
-        d = (a - b).const_value()
+        dp = a - b
+        d = dp.const_value()
         if d is not None and d != 0:
+            return True
+        # parity: odd constant + even multiples of integer atoms is never 0
+        c0 = dp.terms.get((), Fraction(0))
+        if c0.denominator == 1 and c0 % 2 == 1 and all(
+                c.denominator == 1 and c % 2 == 0
+                for m, c in dp.terms.items() if m != ()):
             return True
     return False
 
